@@ -230,6 +230,21 @@ static void emit_rand_raw(Rng & rng, size_t m) {
     l << "|"; l.nums(o); l << e.pos; l.emit();
 }
 
+// The positive numbers the sampler normalises, replayed on a copy of the engine.  As found the code draws
+// Gamma(a_i, 1) directly; with fixes/C08-6 it draws their logarithms through the library's own
+// sampleLogGammaDistribution and divides by the largest one (the normalised result is the same: dirichlet_scale_invariant).
+static std::vector<double> mirrorGammas(const std::vector<double> & params, AI::RandomEngine & mir) {
+    std::vector<double> gs(params.size());
+#ifdef C08_LOG_GAMMA
+    double mx = -std::numeric_limits<double>::infinity();
+    for (size_t i = 0; i < params.size(); ++i) { gs[i] = AI::sampleLogGammaDistribution(params[i], mir); mx = std::max(mx, gs[i]); }
+    for (auto & g : gs) g = std::exp(g - mx);
+#else
+    for (size_t i = 0; i < params.size(); ++i) { std::gamma_distribution<double> d(params[i], 1.0); gs[i] = d(mir); }
+#endif
+    return gs;
+}
+
 // gamma-based samplers, driven by the library's own engine type; a copy of the engine replays the gamma draws
 static void emit_gamma(Rng & rng) {
     static const double shapes[] = {0.5, 1.0, 2.0, 3.5, 10.0, 0.1, 0.01, 25.0};
@@ -237,9 +252,9 @@ static void emit_gamma(Rng & rng) {
     AI::RandomEngine eng(seed), mir(seed);
     if (rng.coin(2, 3)) {
         const size_t n = (size_t)rng.range(1, 8);
-        std::vector<double> params(n), gs(n);
+        std::vector<double> params(n);
         for (auto & p : params) p = shapes[rng.below(8)];
-        for (size_t i = 0; i < n; ++i) { std::gamma_distribution<double> d(params[i], 1.0); gs[i] = d(mir); }
+        std::vector<double> gs = mirrorGammas(params, mir);
         // the two-argument overload (returning the vector) does not instantiate: it calls the three-argument one,
         // which is declared after it and is not found by ADL for std/Eigen argument types (fixes/C08-5)
 #ifdef C08_DIRICHLET_2ARG
@@ -252,11 +267,34 @@ static void emit_gamma(Rng & rng) {
         Line l; l << "C08" << "dir"; l.nums(params); l.nums(gs); l << "|"; l.nums(o); l << (eng == mir); l.emit();
     } else {
         const double a = shapes[rng.below(8)], b = shapes[rng.below(8)];
-        std::gamma_distribution<double> da(a, 1.0), db(b, 1.0);
-        const double x = da(mir), y = db(mir);
+        const std::vector<double> xy = mirrorGammas({a, b}, mir);
+        const double x = xy[0], y = xy[1];
         const double r = AI::sampleBetaDistribution(a, b, eng);
         Line l; l << "C08" << "beta" << a << b << x << y << "|" << r << (eng == mir); l.emit();
     }
+}
+// small shape parameters: libstdc++ computes Gamma(a<1) as Gamma(a+1) * u^(1/a), which underflows to 0; when every draw is 0
+// the normalisation divides 0 by 0.  The first seed for which that happens is used (about one in five for a = 0.001).
+static void emit_gamma_underflow(bool beta) {
+    for (unsigned seed = 0; seed < 200; ++seed) {
+        AI::RandomEngine eng(seed), mir(seed), probe(seed);
+        std::gamma_distribution<double> da(0.001, 1.0), db(0.001, 1.0);
+        if (da(probe) != 0.0 || db(probe) != 0.0) continue;          // both plain gamma draws underflow for this seed
+        const std::vector<double> xy = mirrorGammas({0.001, 0.001}, mir);
+        const double x = xy[0], y = xy[1];
+        if (beta) {
+            const double r = AI::sampleBetaDistribution(0.001, 0.001, eng);
+            Line l; l << "C08" << "beta" << 0.001 << 0.001 << x << y << "|" << r << (eng == mir); l.emit();
+        } else {
+            std::vector<double> params{0.001, 0.001}, gs{x, y};
+            AI::ProbabilityVector out(2);
+            AI::sampleDirichletDistribution(params, eng, out);
+            std::vector<double> o(out.data(), out.data() + out.size());
+            Line l; l << "C08" << "dir"; l.nums(params); l.nums(gs); l << "|"; l.nums(o); l << (eng == mir); l.emit();
+        }
+        return;
+    }
+    std::printf("#stat gamma_underflow_witness_not_found 1\n");
 }
 // makeRandomProbability through std::mt19937: the draws are read from a copy of the engine
 static void emit_rand_mt(Rng & rng, size_t m) {
@@ -484,7 +522,7 @@ static void emit_sparse_model_witness() {
 }
 
 // ---------------------------------------------------------------- cases
-static const long kWitness = 20;
+static const long kWitness = 22;
 
 // exhaustive small scope: every vector k/8 with 2..4 entries (zeros anywhere, mass anywhere)
 static std::vector<std::vector<double>> g_small;
@@ -535,6 +573,8 @@ static void witness(Rng & rng, long idx) {
 #endif
             break;
         }
+        case 20: emit_gamma_underflow(false); break;                             // Dirichlet(0.001, 0.001): both gamma draws underflow to 0 -> NaN
+        case 21: emit_gamma_underflow(true); break;                              // Beta(0.001, 0.001) likewise
         case 14: emit_proj({1e308, 1e308}); break;                               // finite input whose sum overflows a double
         case 13: {                                                               // sparse: the same draw on the LAST stored row: the scan leaves the arrays
             std::vector<std::vector<double>> rows{{0.5, 0.5 - e21, 0.0}};
